@@ -50,6 +50,8 @@ func main() {
 		genC13(*out, *tier, *seed)
 	case "C14":
 		genC14(*out, *tier, *seed)
+	case "C16":
+		genC16(*out, *tier, *seed)
 	case "C17":
 		genC17(*out, *tier, *seed)
 	case "C18":
